@@ -94,9 +94,47 @@ def add_include(r, scn):
     return True
 
 
+def add_include_reldeps(r, scn):
+    """an included .cond file defines a list with a *relative* dependency (REL_DEPS = [":prep"]); two packages
+    each define their own `prep` and hand that very list to a task (deps=REL_DEPS): each task depends on the
+    `prep` of its own package"""
+    if scn.get("include"):
+        return False
+    by_pkg = {}
+    for t, d in scn["tasks"].items():
+        if d["kind"] in ("exp", "cmd") and not d.get("xg") and not d["deps"]:
+            by_pkg.setdefault(split_tid(t)[0], []).append(t)
+    if len(by_pkg) < 2:
+        return False
+    name = "prep"
+    scn["include"] = {"file": "common.cond", "base_args": [], "base_options": {}, "rel_deps": name}
+    new = {}
+    for pkg in r.sample(sorted(by_pkg), 2):
+        pt = tid(pkg, name)
+        new[pt] = {"kind": r.choice(["cmd", "cmd", "exp"]), "deps": [], "rel": [], "par": r.random() < 0.5}
+        t = r.choice(by_pkg[pkg])
+        d = scn["tasks"][t]
+        d["deps"], d["rel"], d["increl"] = [pt], [True], True
+        # somebody else in the package needs its prep too (listed literally)
+        others = [u for u, du in scn["tasks"].items() if split_tid(u)[0] == pkg and u != t and not du.get("xg")
+                  and du["kind"] in ("cmd", "group") and pt not in du["deps"]]
+        if others and r.random() < 0.6:
+            du = scn["tasks"][r.choice(others)]
+            du["deps"] = du["deps"] + [pt]
+            du["rel"] = list(du.get("rel", [True] * (len(du["deps"]) - 1))) + [r.random() < 0.5]
+    # the new tasks go first (definition order inside a COND file does not matter to Conductor)
+    tasks = dict(new)
+    tasks.update(scn["tasks"])
+    scn["tasks"].clear()
+    scn["tasks"].update(tasks)
+    return True
+
+
 def render_cond(scn, pkg):
     lines = []
     done_groups = set()
+    if any(d.get("increl") and split_tid(t)[0] == pkg for t, d in scn["tasks"].items()):
+        lines.append("include(%r)" % ("//" + scn["include"]["file"]))
     inc_task = [(t, d) for t, d in scn["tasks"].items() if d.get("inc") and split_tid(t)[0] == pkg]
     if inc_task:
         t0, d0 = inc_task[0]
@@ -146,7 +184,9 @@ def render_cond(scn, pkg):
                 parts.append("args=%s" % py_lit(d["args"]))
             if d.get("options") and not (wrapped and d.get("wrapdef")):
                 parts.append("options=%s" % py_lit(d["options"]))
-            if d["deps"]:
+            if d.get("increl"):
+                parts.append("deps=REL_DEPS")
+            elif d["deps"]:
                 parts.append("deps=%s" % deps)
             lines.append("%s(%s)" % (fn, ", ".join(parts)))
         elif k == "group":
@@ -175,7 +215,8 @@ def materialize(scn, root):
     if scn.get("include"):
         inc = scn["include"]
         (root / inc["file"]).write_text("BASE_ARGS = %s\nBASE_OPTIONS = %s\nSHARED_DEPS = []\n"
-                                        % (py_lit(inc["base_args"]), py_lit(inc["base_options"])))
+                                        % (py_lit(inc["base_args"]), py_lit(inc["base_options"]))
+                                        + ("REL_DEPS = [%r]\n" % (":" + inc["rel_deps"]) if inc.get("rel_deps") else ""))
     if scn.get("condout_symlink"):
         # results kept on another volume: cond-out is a symbolic link
         store = root.parent / "storage"
